@@ -817,7 +817,9 @@ def rules(tier):
             # C03-da: load_grammar hands skip_brute to _load_terminals in the place of skip_case
             ('C03.R18', _shared_rule('c14', 'r13_options_forwarded')),
             # detector results reach the counters they belong to
-            ('C03.R19', _shared_rule('plumbing', 'unpack_order'))] + _loader_bundle() + _segmentation_bundle() + []
+            ('C03.R19', _shared_rule('plumbing', 'unpack_order')),
+            # mutation sweep: what the detectors find reaches the counters, once per occurrence
+            ('C03.R20', _shared_rule('c06', 'r21_unit_tallies'))] + _loader_bundle() + _segmentation_bundle() + []
 
 
 META = {
